@@ -5,53 +5,40 @@ package main
 // to two users at the same time (e.g. an outer and a nested Deterministic map marshal), which
 // makes results depend on what an EARLIER call did.
 //
-// The pools are unexported package variables; until /repo's verif hooks expose them
-// (proposed: `func VerifPools() map[string]*sync.Pool` in package json and in package jsontext)
-// they are reached by pull-style linkname, which touches no line of /repo.
+// The pools are unexported package variables, exposed read-only by the add-only verif hooks
+// json.VerifPools() (/repo/verif_hooks_pools.go) and jsontext.VerifPools()
+// (/repo/jsontext/verif_hooks_pools.go).
 
 import (
 	"fmt"
+	"sort"
 	"sync"
-	_ "unsafe" // go:linkname
+
+	json "github.com/go-json-experiment/json"
+	"github.com/go-json-experiment/json/jsontext"
 )
-
-//go:linkname c18StringsPools github.com/go-json-experiment/json.stringsPools
-var c18StringsPools *sync.Pool
-
-//go:linkname c18ObjectMemberPool github.com/go-json-experiment/json/jsontext.objectMemberPool
-var c18ObjectMemberPool sync.Pool
-
-//go:linkname c18BufferedEncoderPool github.com/go-json-experiment/json/jsontext.bufferedEncoderPool
-var c18BufferedEncoderPool *sync.Pool
-
-//go:linkname c18StreamingEncoderPool github.com/go-json-experiment/json/jsontext.streamingEncoderPool
-var c18StreamingEncoderPool *sync.Pool
-
-//go:linkname c18BytesBufferEncoderPool github.com/go-json-experiment/json/jsontext.bytesBufferEncoderPool
-var c18BytesBufferEncoderPool *sync.Pool
-
-//go:linkname c18BufferedDecoderPool github.com/go-json-experiment/json/jsontext.bufferedDecoderPool
-var c18BufferedDecoderPool *sync.Pool
-
-//go:linkname c18StreamingDecoderPool github.com/go-json-experiment/json/jsontext.streamingDecoderPool
-var c18StreamingDecoderPool *sync.Pool
 
 type c18NamedPool struct {
 	name string
 	p    *sync.Pool
 }
 
-// c18Pools lists every sync.Pool of the library (pools.go, arshal.go:549, value.go:288).
+// c18Pools lists every sync.Pool of the library (pools.go, arshal.go:549, value.go:288):
+// json "strings"; jsontext "bufferedEncoder", "streamingEncoder", "bytesBufferEncoder",
+// "bufferedDecoder" (also the bytes.Buffer decoder pool), "streamingDecoder", "objectMembers".
 func c18Pools() []c18NamedPool {
-	return []c18NamedPool{
-		{"json.stringsPools", c18StringsPools},
-		{"jsontext.objectMemberPool", &c18ObjectMemberPool},
-		{"jsontext.bufferedEncoderPool", c18BufferedEncoderPool},
-		{"jsontext.streamingEncoderPool", c18StreamingEncoderPool},
-		{"jsontext.bytesBufferEncoderPool", c18BytesBufferEncoderPool},
-		{"jsontext.bufferedDecoderPool", c18BufferedDecoderPool}, // also bytesBufferDecoderPool (same pool)
-		{"jsontext.streamingDecoderPool", c18StreamingDecoderPool},
+	var ps []c18NamedPool
+	for k, p := range json.VerifPools() {
+		ps = append(ps, c18NamedPool{"json." + k, p})
 	}
+	for k, p := range jsontext.VerifPools() {
+		ps = append(ps, c18NamedPool{"jsontext." + k, p})
+	}
+	sort.Slice(ps, func(i, j int) bool { return ps[i].name < ps[j].name })
+	if len(ps) < 7 {
+		fail("verif hooks expose %d pools, expected at least 7", len(ps))
+	}
+	return ps
 }
 
 // c18PoolAudit empties every pool as far as this goroutine can reach (own P: private slot and
